@@ -251,6 +251,8 @@ def check_C02(chk):
     plans = []
     for cfg in cfgs:
         exe2 = exe if cfg == 'prod' else build_driver(chk.wd, cfg)
+        if exe2 is None:
+            continue
         chk.cov['builds'].append(cfg)
         ex2, _ = run_groups(chk, exe2, groups)
         new = 0
